@@ -274,6 +274,7 @@ def string_hooks(extra=None):
          "SimpleString::startsWith": two(lambda a, b: 1 if a.startswith(b) else 0), "SimpleString::endsWith": two(lambda a, b: 1 if a.endswith(b) else 0),
          "SimpleString::contains": two(lambda a, b: 1 if b in a else 0), "SimpleString::asCharString": one(lambda a: ("str", a)),
          "SimpleString::equalsNoCase": two(lambda a, b: 1 if a.lower() == b.lower() else 0),
+         "SimpleString::containsNoCase": two(lambda a, b: 1 if b.lower() in a.lower() else 0),
          # at(i): the char (as signed char), the terminating NUL at i == size, unknown behind it
          "SimpleString::at": (lambda *a_: None if len(a_) < 2 or txt(a_[0]) is None or not isinstance(a_[1], int) or a_[1] > len(txt(a_[0])) or a_[1] < 0 else
                               (0 if a_[1] == len(txt(a_[0])) else (ord(txt(a_[0])[a_[1]]) - 256 if ord(txt(a_[0])[a_[1]]) > 127 else ord(txt(a_[0])[a_[1]]))))}
